@@ -52,9 +52,11 @@ IN_CODE = {g: {int(getattr(s, RECEIVED_KIND[g]).MESSAGE_ID) & (256 ** IDW[g] - 1
 BOUNDS = {
     # N: max number of body bytes (code + payload) of a fully symbolic frame per connection kind; Z: max decompressed payload
     'quick': {'N': {'server': 12, 'peer': 14, 'peer_init': 14, 'distributed': 14}, 'Z': 22, 'T': 16, 'any': 6, 'init_any': 8,
-              'splits': False, 'long': [120, 125, 129, 140], 'long_k': 3},
+              'splits': False, 'long': [120, 125, 129, 140], 'long_k': 3,
+              'huge': [65536, 65537]},
     'thorough': {'N': {'server': 20, 'peer': 24, 'peer_init': 22, 'distributed': 24}, 'Z': 32, 'T': 22, 'any': 10, 'init_any': 15,
-                 'splits': True, 'long': list(range(118, 141)) + [252, 260, 300], 'long_k': 8},
+                 'splits': True, 'long': list(range(118, 141)) + [252, 260, 300], 'long_k': 8,
+                 'huge': [65535, 65536, 65537, 65540, 70000, 131072, 131073, 200000]},
 }
 
 
@@ -753,6 +755,9 @@ def h_reader(c, kind, bad, n_any=6):
         loop.cleanup()
 
 
+SILENCE_CAP = 20          # the silent end of a scenario runs the virtual loop for at most this many read time-outs
+
+
 def h_stall(c, kind, end):
     """valid frame, then a frame whose (symbolic) length prefix announces more bytes than are ever sent; the stream then
     goes silent (read time-out) or ends (EOF).  Nothing of the incomplete frame may be delivered, the reader may not end while
@@ -793,7 +798,10 @@ def h_stall(c, kind, end):
                 c.check(env.alive(conn) and conn.state == ConnectionState.CONNECTED, 'reader_alive_iff_connection_open', sig=sig,
                         info={'alive': env.alive(conn), 'state': conn.state.name})
                 if end == 'timeout':
-                    loop.advance(conn.read_timeout + 1)
+                    # silence: no byte is ever fed again.  Jump over the timers until the loop is quiet; WHEN the read deadline
+                    # expires is not part of the property (partial data may legitimately extend it), only that the reader does
+                    # not wait forever: cap = SILENCE_CAP read time-outs of virtual time
+                    loop.run_until_quiet(max_time=loop.time() + SILENCE_CAP * conn.read_timeout)
                 else:
                     reader.feed_eof()
                     loop.run_ready()
@@ -862,6 +870,150 @@ def h_long(c, where, n, k):
                     info={'alive': env.alive(conn), 'state': conn.state.name})
             c.check(not loop.errors and not env.dead_tasks(), 'no_task_died', sig=sig, info=repr(loop.errors[:1] + env.dead_tasks()[:1]))
             c.check(reader.consumed == len(stream), 'stream_position_at_end', sig=sig, info={'consumed': reader.consumed, 'fed': len(stream)})
+    finally:
+        loop.cleanup()
+
+
+def h_inittype(c, obf_port, tlen, end):
+    """the connection type string of a DECODABLE PeerInit on an accepted connection is symbolic: any well-formed UTF-8 text of tlen
+    bytes (tlen = 1: every ASCII character - P, F, D and 125 others; tlen = 2: every 2-byte text incl. all non-ASCII 2-byte code
+    points; tlen = 0: the empty string).  After the init: a valid frame, a frame with an unknown code, then the peer hangs up (EOF)
+    or goes silent.  Obligation: never "connection open and nobody reading / timing it"."""
+    sig = ['obfuscated_port' if obf_port else 'plain_port', f'type_bytes={tlen}']
+    loop = VLoop()
+    g = codec.Gen(c)
+    try:
+        with c02env.streams(c.symbolic) as st, codec.installed(c.symbolic):
+            env = Env(c, loop, st)
+            env.start()
+            net = env.net
+            typ = g.text('init.typ', tlen)
+            # finite split of the type space (discriminant); inside 'other' the text stays symbolic (D included)
+            cls = c.pick(['P', 'F', 'other'], 'type_class') if tlen == 1 else 'other'
+            tb = list(typ.raw.b) if isinstance(typ, SStr) else list(typ.encode())
+            if cls in ('P', 'F'):
+                assume(c, codec._teq(tb[0], ord(cls)))
+            elif tlen == 1:
+                assume(c, codec._and(codec._not(codec._teq(tb[0], ord('P'))), codec._not(codec._teq(tb[0], ord('F')))))
+            sig = sig + [cls]
+            init, init_plain = build(g, 'PeerInit.Request', 'init', fixed={'typ': typ})
+            group = 'peer' if cls == 'P' else 'distributed'      # how today's code reads the following frames (not demanded)
+            obf_after = obf_port and cls == 'P'
+            _, v1_plain = build(g, VALID[group][0], 'v1')
+            bad_plain, _, _ = bad_frame(c, g, group, 'unknown_code')
+            g.commit()
+            wire = to_wire(g, [(init_plain, obf_port), (v1_plain, obf_after), (bad_plain, obf_after)])
+            conn, reader, writer, task = env.incoming(obf_port)
+            stream = [t for f in wire for t in f]
+            with c02env.monitor(len(stream)):
+                try:
+                    with guard(c, seconds=WATCHDOG_STREAM_S):
+                        env.feed(reader, cut(stream, segmentations(wire, 'frames')))
+                except NONTERMINATION as e:
+                    c.check(False, 'parse_terminates', sig=sig, info=str(e))
+                    return
+            c.reach('init_type_fed')
+            c.reach('type_' + cls)
+
+            def watched():
+                """somebody reads / times the open connection: the message reader, or - file connections - the owner the
+                connection was handed to with PeerInitializedEvent in state NEGOTIATING_TRANSFER (TransferManager in the real
+                client; it is not part of this environment, so nothing more is demanded of 'F')"""
+                if env.alive(conn):
+                    return 'reader'
+                if conn in env.inits and conn.connection_state == PeerConnectionState.NEGOTIATING_TRANSFER:
+                    return 'file_owner'
+                return None
+
+            def is_open():
+                return conn.state not in (ConnectionState.CLOSED, ConnectionState.CLOSING) and not writer.closed
+
+            info = {'state': conn.state.name, 'peer_state': conn.connection_state.name, 'watched_by': watched(), 'accept_done': task.done()}
+            c.check(not is_open() or watched() is not None, 'open_connection_is_read', sig=sig, info=info)
+            c.check(not loop.errors and not env.dead_tasks(), 'no_task_died', sig=sig, info=repr(loop.errors[:1] + env.dead_tasks()[:1]))
+            owner = watched()
+            if owner == 'file_owner':
+                c.reach('file_connection_handed_over')       # closed by its owner (transfer code), outside this check
+                return
+            if end == 'eof':
+                reader.feed_eof()
+                loop.run_ready()
+            else:
+                loop.run_until_quiet(max_time=loop.time() + SILENCE_CAP * conn.read_timeout)
+            info = {'state': conn.state.name, 'writer_closed': writer.closed, 'registered': conn in net.peer_connections,
+                    'alive': env.alive(conn)}
+            c.check(conn.state == ConnectionState.CLOSED and writer.closed and conn not in net.peer_connections and not env.alive(conn),
+                    'stream_end_closes_connection', sig=sig + [end], info=info)
+            c.check(not loop.errors and not env.dead_tasks(), 'no_task_died', sig=sig + [end], info=repr(loop.errors[:1] + env.dead_tasks()[:1]))
+    finally:
+        loop.cleanup()
+
+
+HUGE_FILLER = b'abcdefghijklmnopqrstuvwxyz0123456789'
+
+
+def h_huge(c, obf, n, seg):
+    """one frame with a body of n > 64 KiB bytes (n includes the 4 code bytes) on an accepted peer connection, followed by two small
+    valid frames.  Symbolic: the 4 bytes of the message code of the huge frame (so the solver decides valid / unknown code /
+    undecodable: codes 43, 46, 51 make it a valid message with a huge file name), every leaf and key of the followers and of the
+    PeerInit.  Concrete: the length prefix, the string length and the ASCII filler (and, obfuscated, the key of the huge frame) so
+    that nothing is bit-blasted.  seg: 'all' (coalesced), 'inside' (cut in the middle of the huge frame, its end coalesced with
+    the followers), 'followers_apart' (cuts at every frame boundary)."""
+    sig = ['obfuscated' if obf else 'plain', 'over_64KiB' if n > 65536 else 'upto_64KiB', seg]
+    loop = VLoop()
+    g = codec.Gen(c)
+    try:
+        with c02env.streams(c.symbolic) as st, codec.installed(c.symbolic):
+            env = Env(c, loop, st)
+            env.start()
+            _, init_plain = build(g, 'PeerInit.Request', 'init', fixed={'typ': 'P'})
+            code = terms(g.raw('huge.code', 4))
+            flen = n - 8
+            filler = list((HUGE_FILLER * (flen // len(HUGE_FILLER) + 1))[:flen])
+            huge_plain = le(n, 4) + code + le(flen, 4) + filler
+            f1, f1_plain = build(g, VALID['peer'][0], 'f1')
+            f2, f2_plain = build(g, VALID['peer'][1], 'f2')
+            g.commit()
+            def w(plain, name):
+                return ref_obfuscate(plain, terms(g.raw(name, 4))) if obf else list(plain)
+            wire = [w(init_plain, 'key.init'), ref_obfuscate(huge_plain, [0x6b, 0x13, 0xf2, 0x9d]) if obf else huge_plain,
+                    w(f1_plain, 'key.f1'), w(f2_plain, 'key.f2')]
+            bounds, p = [], 0
+            for f in wire:
+                bounds.append((p, p + len(f)))
+                p += len(f)
+            cuts = {'all': [], 'inside': [bounds[0][1], (bounds[1][0] + bounds[1][1]) // 2],
+                    'followers_apart': [b_ for _, b_ in bounds]}[seg]
+            conn, reader, writer, _ = env.incoming(obf)
+            stream = [t for f in wire for t in f]
+            with c02env.monitor(len(stream)):
+                try:
+                    with guard(c, seconds=3 * WATCHDOG_STREAM_S):
+                        env.feed(reader, cut(stream, cuts))
+                except NONTERMINATION as e:
+                    c.check(False, 'parse_terminates', sig=sig, info=str(e))
+                    return
+                c.reach('huge_frame_fed')
+                got = env.delivered(conn)
+                names = [type(m).__qualname__ for m in got]
+                if len(got) == 3:
+                    c.reach('huge_frame_is_a_message')
+                    ok = codec._and(isinstance(got[0], P.MessageDataclass), msg_equal(c, got[1], f1), msg_equal(c, got[2], f2))
+                elif len(got) == 2:
+                    c.reach('huge_frame_rejected')
+                    ok = codec._and(msg_equal(c, got[0], f1), msg_equal(c, got[1], f2))
+                else:
+                    ok = False
+                c.check(ok, 'frames_after_huge_frame_delivered_once_in_order', sig=sig, info={'delivered': names})
+                c.check(reader.consumed == len(stream), 'stream_position_at_end', sig=sig, info={'consumed': reader.consumed, 'fed': len(stream)})
+                c.check(env.alive(conn) == (conn.state != ConnectionState.CLOSED) and conn.state == ConnectionState.CONNECTED,
+                        'reader_alive_iff_connection_open', sig=sig, info={'alive': env.alive(conn), 'state': conn.state.name})
+                reader.feed_eof()
+                loop.run_ready()
+                c.check(conn.state == ConnectionState.CLOSED and writer.closed and not env.alive(conn), 'stream_end_closes_connection',
+                        sig=sig, info={'alive': env.alive(conn), 'state': conn.state.name})
+                c.check(len(env.delivered(conn)) == len(got), 'frames_after_huge_frame_delivered_once_in_order', sig=sig + ['eof'])
+                c.check(not loop.errors and not env.dead_tasks(), 'no_task_died', sig=sig, info=repr(loop.errors[:1] + env.dead_tasks()[:1]))
     finally:
         loop.cleanup()
 
@@ -960,7 +1112,18 @@ def _bounds_text(tier):
             'text leaves of the valid frames': '2 bytes each (all well-formed UTF-8 of that length)',
             'long valid frames on obfuscated connections (body bytes incl. code)': f"{b['long']}; first {b['long_k']} text bytes symbolic, "
                                                                                   'rest concrete filler, every key symbolic; as a message and as PeerInit',
-            'frames per reader scenario': '[PeerInit] valid, bad, valid (+EOF); stall scenario: [PeerInit] valid, incomplete (0..3 body bytes sent)'}
+            'frames per reader scenario': '[PeerInit] valid, bad, valid (+EOF); stall scenario: [PeerInit] valid, incomplete (0..3 body bytes sent)',
+            'silent end of a scenario (stall, inittype)': f'no byte is fed again; the virtual loop jumps from timer to timer until it is quiet, for at most '
+                                                          f'{SILENCE_CAP} x read_timeout of virtual time (peer: {SILENCE_CAP * 60} s, server: {SILENCE_CAP * 600} s); '
+                                                          'when exactly the read deadline expires is not checked',
+            'huge frame (body bytes incl. code), plain': str(b['huge']),
+            'huge frame, obfuscated': (str(b['huge'][1:]) + ', segmentations coalesced / cut inside only' if len(b['huge']) == 2 else str(b['huge']))
+                                      + ' (concrete key for the huge frame)',
+            'huge frame content': 'symbolic: the 4 code bytes, leaves and keys of PeerInit and of the 2 followers; concrete: length prefix, string length, '
+                                  'ASCII filler; 64 KiB = 65536 is only the bound the lengths straddle, no constant is read from the code; segmentations: '
+                                  'coalesced, cut inside the huge frame, cuts on every frame boundary',
+            'PeerInit connection type (inittype)': 'any well-formed UTF-8 text of 0, 1 or 2 bytes (all 128 ASCII characters incl. P, F, D; every 2-byte '
+                                                   'text incl. all 2-byte non-ASCII code points; the empty string); plain and obfuscated port; EOF and silent end'}
 
 
 META = {
@@ -983,7 +1146,10 @@ META = {
                    'exactly the valid messages reach the event bus once and in order, reader task alive iff connection not CLOSED, no task '
                    'dies, a raising callback/listener does not stop the reader; a frame whose symbolic prefix announces more than is sent is '
                    'never delivered and the read time-out / EOF ends reader and connection together; valid frames longer than the 124/128-byte '
-                   'key cycle on obfuscated connections (as message and as PeerInit) are delivered once, in order, with equal content. (e) Real ListeningConnection.accept + on_peer_accepted: a bad '
+                   'key cycle on obfuscated connections (as message and as PeerInit) are delivered once, in order, with equal content; the two frames '
+                   'after a frame with a body of more than 64 KiB (symbolic code, concrete filler; plain and obfuscated; coalesced / cut inside / '
+                   'followers apart) are delivered once, in order, equal; a decodable PeerInit with ANY connection type string (symbolic text of 0..2 '
+                   'bytes) never leaves the accepted connection open with nobody reading or timing it, and EOF / silence closes and unregisters it. (e) Real ListeningConnection.accept + on_peer_accepted: a bad '
                    'first frame closes that connection (and it stays closed) while another peer connection and the server connection stay '
                    'up and keep delivering.',
     'functions': [DataConnection.decode_message_data, ServerConnection.deserialize_message, PeerConnection.deserialize_message,
@@ -1011,12 +1177,15 @@ META = {
     'data_variables': ['every byte of a hostile frame: length prefix, message code, array counts, string lengths, text bytes, obfuscation key (BV8 each)',
                        'every byte of the T-byte stream of the framing harness (length prefixes are symbolic 32-bit values)',
                        'the leaves of the valid frames around the bad one (uint32 / boolean / text bytes) and one obfuscation key per frame',
-                       'decompressed payload bytes of the compressed classes (behind the zlib stand-in)'],
+                       'decompressed payload bytes of the compressed classes (behind the zlib stand-in)',
+                       'the bytes of the PeerInit connection type (inittype) and the 4 message code bytes of the huge frame (huge)'],
     'discriminants': ['connection kind (server / peer awaiting init / peer / distributed; plain / obfuscated; accepted on the plain or obfuscated port)',
                       'number of bytes of the frame / of the stream (every length up to the bound)',
                       'kind of bad frame (body of 0..3 bytes, unknown code, lying string length, lying array count, undecodable text, truncated valid '
                       'frame, arbitrary body, corrupt zlib, callback that raises, incomplete frame then silence / EOF)',
                       'number of body bytes sent of an incomplete frame (0..3)',
+                      'huge frame: length (list in bounds), plain/obfuscated, segmentation (3)',
+                      'PeerInit type: byte length 0/1/2 and class P / F / anything else (inside the class the text is symbolic), port, EOF / silent end',
                       'TCP segmentation (whole stream, byte by byte, cuts inside headers and bodies, cuts on frame boundaries, cuts straddling boundaries; '
                       'framing harness: additionally every single split point in the thorough tier)',
                       'job partition: message code mod parts', 'which of 64 concrete zlib corruptions (enumerated: real zlib is C code)'],
@@ -1028,9 +1197,12 @@ META = {
                 'non-terminating loops on symbolic data that neither iterate over `range` nor call the decompressobj stand-in (exploration has no '
                 'wall-clock watchdog: such a job would end NOT-EXHAUSTED, not green); '
                 'decompression bombs / memory exhaustion',
-                'read time-outs other than the one of the stall scenario (no virtual time passes elsewhere), write errors, concurrent disconnect '
+                'read time-outs other than the silent ends of the stall / inittype scenarios (no virtual time passes elsewhere; there only "closed within '
+                '20 read time-outs of silence" is demanded, not the deadline), write errors, concurrent disconnect '
                 'by another task, a peer that sends so slowly that the time-out interleaves with a frame',
-                'file (F) connections after initialisation (no message framing there)',
+                'file (F) connections after initialisation (no message framing there): inittype only checks that the connection is handed to its owner '
+                '(PeerInitializedEvent in state NEGOTIATING_TRANSFER); reading, timing and closing it is the transfer code (not in this environment)',
+                'symbolic content inside a huge frame beyond its 4 code bytes (a symbolic byte inside a 64 KiB text would need a 64 KiB UTF-8 formula)',
                 'log formatting (logging is disabled; arguments of log calls are still evaluated)',
                 'managers other than Network listening on the bus (the raising listener / matcher stand for them)'],
     'assumptions': ['CPython 3.12 struct/int/bytes/UTF-8/cp1252 semantics as validated by engine.codec.validate() at the start of every run',
@@ -1096,6 +1268,19 @@ def jobs(tier):
             out.append({'harness': 'long', 'fn': h_long, 'params': {'where': where, 'n': n, 'k': b['long_k']}, 'weight': 150,
                         'requires': ['long_frame_fed', 'valid_init_establishes', 'valid_frames_delivered_once_in_order',
                                      'reader_alive_iff_connection_open', 'no_task_died'], **lim})
+    for obf_port in (False, True):
+        for tlen in (1, 0, 2):
+            for end in ('eof', 'timeout'):
+                out.append({'harness': 'inittype', 'fn': h_inittype, 'params': {'obf_port': obf_port, 'tlen': tlen, 'end': end}, 'weight': 40,
+                            'requires': ['init_type_fed', 'type_other', 'open_connection_is_read', 'stream_end_closes_connection', 'no_task_died']
+                            + (['type_P', 'type_F', 'file_connection_handed_over'] if tlen == 1 else []), **lim})
+    for obf in (False, True):
+        for n in (b['huge'][1:] if obf and len(b['huge']) == 2 else b['huge']):      # quick: obfuscated only the length above 64 KiB (cost)
+            for seg in ('all', 'inside', 'followers_apart'):
+                if obf and len(b['huge']) == 2 and seg == 'followers_apart':
+                    continue                                                       # quick: covered plain; obfuscated in thorough
+                out.append({'harness': 'huge', 'fn': h_huge, 'params': {'obf': obf, 'n': n, 'seg': seg}, 'weight': 400,
+                            'requires': ['huge_frame_fed', 'frames_after_huge_frame_delivered_once_in_order', 'stream_end_closes_connection', 'no_task_died'], **lim})
     # H4
     for obf_port in (False, True):
         for bad in INIT_BAD:
